@@ -9,6 +9,8 @@ use super::video::VideoState;
 pub struct IO {
   pub interrupt_flag: InterruptFlag,
   pub interrupt_mask: u8,
+  /// Bits 5-7 of IE: they select no interrupt source but are readable and writable
+  pub interrupt_mask_unused: u8,
   pub joypad: Box<Joypad>,
   pub serial: Box<SerialComms>,
   pub timer: Box<Timer>,
@@ -20,6 +22,7 @@ impl IO {
     Self {
       interrupt_flag: InterruptFlag::empty(),
       interrupt_mask: 0,
+      interrupt_mask_unused: 0,
       joypad: Box::new(Joypad::new()),
       serial: Box::new(SerialComms::new()),
       timer: Box::new(Timer::new()),
